@@ -17,13 +17,15 @@
    everything below it (after, with contents_first); with a sort installed siblings come in name order,
    grouped by kind with dirs_first / files_first; and paths/dirs/files/all_* return exactly the entries
    strictly below an existing directory (one level for the shallow helpers) of the asked kind, each
-   once, never the argument.  PARTIAL: with links followed (contents of a link's target once per
-   followed link, LinkLooping on a cycle) the machine = recursion theorem applies but termination, and
-   hence the denotation, is exercised (driver comparison machine vs recursion on every explored call;
-   tools/walkspec.py judges the yielded multiset), not proved. *)
+   once, never the argument.  Memfs/WalkFollow.v proves that the denotation is ALWAYS defined, links
+   followed or not: a followed link whose target is already open above it is reported as LinkLooping, every
+   other followed link adds a new path to the open directories and a plain child is one level deeper, so
+   no descent is endless.  PARTIAL: with links followed, that the mirror's fuel (an artefact of the model;
+   the code has none) covers the recursion's steps is exercised (driver comparison machine vs recursion on
+   every explored call; tools/walkspec.py judges the yielded multiset), not proved. *)
 From stdpp Require Import gmap.
 From Coq Require Import NArith.
-From RV Require Import Base.Str Path.Helpers Memfs.State Memfs.Walk Memfs.WalkFacts Memfs.WalkSpec Memfs.WalkTerm Memfs.WalkExact Memfs.Wf Memfs.Ops Memfs.WalkOps Path.Expand.
+From RV Require Import Base.Str Path.Helpers Memfs.State Memfs.Walk Memfs.WalkFacts Memfs.WalkSpec Memfs.WalkTerm Memfs.WalkExact Memfs.WalkFollow Memfs.Wf Memfs.Ops Memfs.WalkOps Path.Expand.
 
 Theorem C08_walk_no_panic : forall sn o pre p, walk sn o pre p <> inl Panic.
 Proof. exact walk_no_panic. Qed.
@@ -93,3 +95,9 @@ Theorem C08_listing_exact : forall env m k s p, WF m -> resolve env m s = inl p 
                      (shallow k = true -> length q = S (length p)) /\ kind_sel k x = true.
 Proof. exact listing_exact. Qed.
 Print Assumptions C08_listing_exact.
+
+(* the denotation is defined for every snapshot, option record (links followed or not), pre_op and start: no endless descent *)
+Theorem C08_denotation_defined : forall (E : gmap (list (list N)) entry) o pre r, key_ok E ->
+  exists h evs, sw_walk h E o pre r = Some evs.
+Proof. exact sw_always_defined. Qed.
+Print Assumptions C08_denotation_defined.
